@@ -49,7 +49,7 @@ def scratch_dir(prefix: str = "icv-") -> str:
 def run_tlc(module: str, cfg: str, workdir: str, workers: int = 16, extra_modules: Optional[Dict[str, str]] = None,
             env: Optional[Dict[str, str]] = None, timeout: int = 3600, coverage: bool = False,
             depth_first: bool = False, simulate: Optional[str] = None, seed: Optional[int] = None,
-            heap: str = "4g", extra_args: Optional[List[str]] = None) -> TlcResult:
+            heap: str = "8g", extra_args: Optional[List[str]] = None) -> TlcResult:
     """Run TLC on spec/<module>.tla (or a generated module given in extra_modules) with config text ``cfg``.
 
     All specification modules are copied into ``workdir`` so that generated MC modules can EXTEND them.
